@@ -216,7 +216,19 @@ pub fn hist_json(h: &[Op]) -> Value {
 /// differ, so a sample read from a wrong offset or from a zero-filled buffer never compares equal.
 pub fn payload(seed: u64, k: usize, track: u32, size: u32) -> Vec<u8> {
     let base = (seed as u32).wrapping_mul(37).wrapping_add(k as u32 * 29).wrapping_add(track.wrapping_mul(11));
-    (0..size).map(|i| (((base.wrapping_add(i.wrapping_mul(7))) % 251) + 1) as u8).collect()
+    let mut v: Vec<u8> = (0..size).map(|i| (((base.wrapping_add(i.wrapping_mul(7))) % 251) + 1) as u8).collect();
+    // every third sample begins like the framing of an elementary stream (ADTS sync word, Annex-B start codes, all
+    // ones, all zero): a muxer stores sample bytes verbatim whatever they look like
+    const PREFIXES: [&[u8]; 6] = [&[0xff, 0xf1, 0x4c, 0x80], &[0, 0, 0, 1], &[0, 0, 1], &[0xff, 0xf9], &[0xff, 0xff, 0xff, 0xff], &[0, 0, 0, 0]];
+    if k % 3 == 1 {
+        let p = PREFIXES[(k / 3 * 2 + track as usize + 5) % PREFIXES.len()];
+        for (i, b) in p.iter().enumerate() {
+            if i < v.len() {
+                v[i] = *b;
+            }
+        }
+    }
+    v
 }
 
 /// What the reference model says a history wrote: per accepted track, the list of samples.
